@@ -629,3 +629,92 @@ def eval_term(t: Term, env: dict[Term, int]):
 
 def _ne(t):
     raise NotEvaluable(show(t))
+
+
+# ---------------------------------------------------------------------------------------------- quantified predicates
+ELEM = ('var', '$e')
+
+
+def _bind_pattern(pattern: Term, value: Term, out: dict) -> bool:
+    if pattern[0] == 'var':
+        out[pattern] = value
+        return True
+    if pattern[0] in ('tuple', 'list') and value[0] in ('tuple', 'list') and len(pattern) == len(value):
+        return all(_bind_pattern(p, v, out) for p, v in zip(pattern[1:], value[1:]))
+    return False
+
+
+def elementwise(seq: Term, base: Term) -> Term | None:
+    """The generic element of `seq` when the generic element of the sequence `base` is ELEM: base itself, a
+    comprehension without filter over such a sequence, or a zip of such sequences."""
+    if seq == base:
+        return ELEM
+    if seq[0] == 'comp' and len(seq[2]) == 1 and not seq[2][0][2]:
+        tgt, it, _ifs = seq[2][0]
+        inner = elementwise(it, base)
+        if inner is None:
+            return None
+        m: dict = {}
+        if not _bind_pattern(tgt, inner, m):
+            return None
+        return subst(seq[1], m)
+    if seq[0] == 'call' and seq[1] == ('var', 'zip') and not seq[3]:
+        parts = [elementwise(x, base) for x in seq[2]]
+        if any(x is None for x in parts):
+            return None
+        return ('tuple',) + tuple(parts)
+    if seq[0] == 'call' and seq[1] in (('var', 'list'), ('var', 'tuple')) and len(seq[2]) == 1 and not seq[3]:
+        return elementwise(seq[2][0], base)
+    return None
+
+
+def quantified(t: Term, base: Term):
+    """('all' | 'any', predicate over ELEM) for all(...) / any(...) of a sequence derived element-wise from base."""
+    if t[0] == 'call' and t[1] in (('var', 'all'), ('var', 'any')) and len(t[2]) == 1 and not t[3]:
+        body = elementwise(t[2][0], base)
+        if body is not None:
+            return t[1][1], body
+    return None
+
+
+def _atoms(t: Term, acc: list) -> None:
+    if isinstance(t, tuple) and t and t[0] in ('and', 'or'):
+        for x in t[1:]:
+            _atoms(x, acc)
+    elif isinstance(t, tuple) and t and t[0] == 'unop' and t[1] == 'not':
+        _atoms(t[2], acc)
+    elif isinstance(t, tuple) and t and t[0] == 'cmp' and t[1] in ('ne', 'isnot', 'notin'):
+        pos = ('cmp', {'ne': 'eq', 'isnot': 'is', 'notin': 'in'}[t[1]], t[2], t[3])
+        if pos not in acc:
+            acc.append(pos)
+    elif t not in acc:
+        acc.append(t)
+
+
+def _prop_eval(t: Term, val: dict) -> bool:
+    if isinstance(t, tuple) and t and t[0] == 'and':
+        return all(_prop_eval(x, val) for x in t[1:])
+    if isinstance(t, tuple) and t and t[0] == 'or':
+        return any(_prop_eval(x, val) for x in t[1:])
+    if isinstance(t, tuple) and t and t[0] == 'unop' and t[1] == 'not':
+        return not _prop_eval(t[2], val)
+    if isinstance(t, tuple) and t and t[0] == 'cmp' and t[1] in ('ne', 'isnot', 'notin'):
+        return not val[('cmp', {'ne': 'eq', 'isnot': 'is', 'notin': 'in'}[t[1]], t[2], t[3])]
+    return val[t]
+
+
+def prop_equiv(a: Term, b: Term, max_atoms: int = 8) -> bool | None:
+    """Propositional equivalence of two conditions over their atoms (anything that is not and / or / not); None when
+    there are too many atoms.  Short-circuit evaluation is ignored: the atoms are treated as total."""
+    import itertools
+
+    atoms: list = []
+    _atoms(a, atoms)
+    _atoms(b, atoms)
+    if len(atoms) > max_atoms:
+        return None
+    for bits in itertools.product((False, True), repeat=len(atoms)):
+        val = dict(zip(atoms, bits))
+        if _prop_eval(a, val) != _prop_eval(b, val):
+            return False
+    return True
